@@ -10,6 +10,7 @@
 import Yld.Model.Api
 import Yld.Proofs.Program
 import Yld.Proofs.PyCorrect
+import Yld.Proofs.LogicNaf
 namespace Yld.C06
 
 /-- `(A;B)`: A's answers, then B's. -/
@@ -110,5 +111,36 @@ theorem control_constructs_in_printed_python (q : Q) (u : Term → Term → Gen)
 
 /-- Non-vacuity: a state that meets the invariant (flags as the function prologue leaves them). -/
 example : Inv [] (PyFlags.set [] "doBreak" false) := ⟨by simp, fun l hl => by cases hl⟩
+
+/-! ### Negation as failure against the logical reading
+
+For a goal of a cut-free Horn program with any closed fact store, `HoldsF db preds` (Yld/Proofs/LogicFacts.lean)
+is what follows from program and store. `\\+ G` is "not provable", instance by instance. -/
+
+/-- `\\+ G` fails when some instance of `G` follows from program and store: the continuation never
+    runs (or the limit cuts the search for `G` off). -/
+theorem negation_fails_when_an_instance_is_provable (cfg : Cfg) (preds : List Pred) (h : HornCfg cfg preds)
+    (hnocut : ∀ p ∈ preds, ∀ c ∈ p.clauses, c.body.cutFree = true)
+    (f : Nat) (env : Env) (d : Nat) (name : String) (sargs : List STerm) (hname : userName name = true)
+    (w : World) (hcl : DbClosed w.db) (hsc : w.Scoped)
+    (hargs : ∀ t ∈ sargs.map (STerm.eval env), ∀ x ∈ t.vars, x < w.next)
+    (θ : Nat → Term) (hθ : Solves θ w.b)
+    (hh : HoldsF w.db preds name ((sargs.map (STerm.eval env)).map (Term.subst θ))) :
+    ∃ r : R, (r.2 = none ∨ r.2 = some .oof ∨ ∃ e, r.2 = some (.exn e)) ∧
+      ∀ k : K, solve (query cfg f) env d (.neg (.call name sargs)) k w = r :=
+  naf_fails_when_provable cfg preds h hnocut f env d name sargs hname w hcl hsc hargs θ hθ hh
+
+/-- `\\+ G` succeeds exactly once, with the bindings and the store it started with, when no instance of
+    `G` follows (or the search was cut off, or built a cyclic term). -/
+theorem negation_succeeds_when_no_instance_is_provable (cfg : Cfg) (preds : List Pred) (h : HornCfg cfg preds)
+    (f : Nat) (env : Env) (d : Nat) (name : String) (sargs : List STerm) (hname : userName name = true)
+    (w : World) (hcl : DbClosed w.db) (hsc : w.Scoped)
+    (hargs : ∀ t ∈ sargs.map (STerm.eval env), ∀ x ∈ t.vars, x < w.next)
+    (hno : ∀ θ, Solves θ w.b → ¬ HoldsF w.db preds name ((sargs.map (STerm.eval env)).map (Term.subst θ)))
+    (hsolv : Solvable w.b) (hcyc : w.cyc = false) :
+    (∃ w', w'.b = w.b ∧ w'.db = w.db ∧ ∀ k : K, solve (query cfg f) env d (.neg (.call name sargs)) k w = k w') ∨
+    (∃ r : R, (r.2 = some .oof ∨ (∃ e, r.2 = some (.exn e)) ∨ r.1.cyc = true) ∧
+      ∀ k : K, solve (query cfg f) env d (.neg (.call name sargs)) k w = r) :=
+  naf_succeeds_when_not_provable cfg preds h f env d name sargs hname w hcl hsc hargs hno hsolv hcyc
 
 end Yld.C06
